@@ -44,6 +44,17 @@ def check(path):
             if key in ("rows", "calls", "vars"):
                 if o.get(key) != want:
                     bad.append(f"{prof}: {key} = {o.get(key)!r}, expected {want!r}" + (f" [outcome {o.get('outcome')}: {o.get('message','')[:120]}]" if o.get('outcome') != 'ok' else ""))
+            elif key == "static":
+                # C15: `expect static same` = try_iter_static succeeds and yields exactly the inputs, expected values and
+                # lines of this dynamic run; `expect static refused` = it refuses
+                for wv in want:
+                    st = o.get("static")
+                    if wv == "refused":
+                        if st != "refused":
+                            bad.append(f"{prof}: try_iter_static did not refuse: {st!r}")
+                    elif wv == "same":
+                        if st != o.get("dynproj"):
+                            bad.append(f"{prof}: static rows {st!r} differ from this dynamic run's {o.get('dynproj')!r}")
             elif key == "message-contains":
                 for wv in want:
                     if wv not in (o.get("message") or ""):
